@@ -291,7 +291,7 @@ Section NoBody.
     - destruct (code_has_body st) eqn:Eh.
       + destruct bd as [b|t].
         * intros H. injection H as <-. cbn [r_status mk_finish]. congruence.
-        * destruct (if truthy (snd (mk_ct c a true)) then snd (mk_ct c a true) else charset_of (fst (mk_ct c a true)));
+        * destruct (if truthy (charset_of (fst (mk_ct c a true))) then charset_of (fst (mk_ct c a true)) else snd (mk_ct c a true));
             [|discriminate].
           destruct (encode s t); [|discriminate]. intros H. injection H as <-. cbn [r_status mk_finish]. congruence.
       + intros H. injection H as <-. intros _. cbn [r_headers r_app]. split; [apply mk_ct_nobody|reflexivity].
@@ -320,6 +320,41 @@ Section NoBody.
     - intros H. injection H as <-. cbn [r_status]. congruence.
   Qed.
 End NoBody.
+
+(* a text body given to the constructor, when the response announces a charset: it reads back, i.e. the
+   bytes are the text in the announced charset (whatever charset= argument was passed) *)
+Section CtorText.
+  Variable c : cfg.
+
+  Lemma charset_of_mk_finish a st hl cond b :
+    charset_of (r_headers (mk_finish a st hl cond b)) = charset_of hl.
+  Proof.
+    unfold mk_finish. cbn [r_headers]. unfold charset_of.
+    rewrite hlast_app_other by discriminate.
+    destruct (is_some (a_headerlist a)); [rewrite hlast_hdel_other by discriminate|]; reflexivity.
+  Qed.
+
+  Theorem ctor_text_readback a r t : a_app a = None -> a_body a = Some (BText t) -> mk c a = Ok r ->
+    code_has_body (r_status r) = true -> truthy (charset_of (r_headers r)) = true ->
+    get_text c r = (r, Ok t).
+  Proof.
+    unfold mk. intros Ea Eb. rewrite Ea, Eb.
+    destruct (match a_status a with None => Ok (s2l "200 OK") | Some s => status_set s end) as [st|e];
+      try discriminate.
+    destruct (code_has_body st) eqn:Eh.
+    - set (hl1 := fst (mk_ct c a true)).
+      destruct (truthy (charset_of hl1)) eqn:Et.
+      + destruct (charset_of hl1) as [cs|] eqn:Ec; [|discriminate Et].
+        destruct (encode cs t) as [b|x] eqn:Ee; [|discriminate].
+        intros H. injection H as <-. intros _ _.
+        unfold get_text, text_encoding. rewrite charset_of_mk_finish. fold hl1. rewrite Ec, Et.
+        cbn [get_body mk_finish r_app]. rewrite (decode_encode _ _ _ Ee). reflexivity.
+      + destruct (snd (mk_ct c a true)) as [e|]; [|discriminate].
+        destruct (encode e t); [|discriminate]. intros H. injection H as <-. intros _ Ht.
+        rewrite charset_of_mk_finish in Ht. fold hl1 in Ht. congruence.
+    - intros H. injection H as <-. cbn [r_status]. congruence.
+  Qed.
+End CtorText.
 
 (* which integer codes those are, decided on the status table regenerated from webob.util *)
 Definition nobody_codes : list Z := map Z.of_nat (seq 100 100) ++ [204; 205; 304]%Z.
